@@ -1,2 +1,70 @@
+// C13 bounded stand-in on REAL petgraph: every labelled DAG up to N nodes x every non-empty ordered root selection; one dangling edge.
 use crate::Report;
-pub fn order(_thorough: bool) -> Report { Report::new("not implemented yet", "-") }
+// the real source file is compiled into the harness (create_dependency_graph is pub(crate) in libcnb-package)
+#[path = "/repo/libcnb-package/src/dependency_graph.rs"]
+#[allow(dead_code, unreachable_pub)]
+mod dg;
+use dg::{DependencyNode, get_dependencies};
+use std::collections::BTreeSet;
+use std::convert::Infallible;
+
+#[derive(Debug, Clone)]
+struct N { id: u8, deps: Vec<u8> }
+impl DependencyNode<u8, Infallible> for N {
+    fn id(&self) -> u8 { self.id }
+    fn dependencies(&self) -> Result<Vec<u8>, Infallible> { Ok(self.deps.clone()) }
+}
+fn perms(items: &[u8], k: usize, cur: &mut Vec<u8>, out: &mut Vec<Vec<u8>>) {
+    if cur.len() == k { out.push(cur.clone()); return; }
+    for &i in items { if !cur.contains(&i) { cur.push(i); perms(items, k, cur, out); cur.pop(); } }
+}
+pub fn order(thorough: bool) -> Report {
+    let maxn = if thorough { 5 } else { 4 };
+    let mut r = Report::new(
+        "every labelled DAG (all subsets of the n(n-1) directed pairs that are acyclic) on up to N nodes x every non-empty ordered selection of roots: the real create_dependency_graph + get_dependencies (real petgraph) returns exactly roots + transitive dependencies, each once, each after all of its dependencies; a dependency on an unknown id is an error; non-trivial = graphs with at least one edge",
+        &format!("N <= {maxn} nodes"),
+    );
+    for n in 1..=maxn {
+        let pairs: Vec<(u8, u8)> = (0..n as u8).flat_map(|i| (0..n as u8).filter(move |j| *j != i).map(move |j| (i, j))).collect();
+        for mask in 0u32..(1 << pairs.len()) {
+            {
+                let mut nodes: Vec<N> = (0..n as u8).map(|i| N { id: i, deps: vec![] }).collect();
+                for (b, (i, j)) in pairs.iter().enumerate() { if mask >> b & 1 == 1 { nodes[*i as usize].deps.push(*j); } }
+                // keep acyclic graphs only (Kahn)
+                let mut indeg = vec![0; n]; for x in &nodes { for d in &x.deps { indeg[*d as usize] += 1; } }
+                let mut q: Vec<usize> = (0..n).filter(|i| indeg[*i] == 0).collect(); let mut seen = 0;
+                while let Some(x) = q.pop() { seen += 1; for d in &nodes[x].deps { indeg[*d as usize] -= 1; if indeg[*d as usize] == 0 { q.push(*d as usize); } } }
+                if seen != n { continue; }
+                let graph = match libcnb_package_create(nodes.clone()) { Ok(g) => g, Err(e) => { r.violation("create", "create_dependency_graph failed on a complete DAG", format!("{nodes:?}"), "Ok".into(), e); continue; } };
+                let ids: Vec<u8> = (0..n as u8).collect();
+                let mut sels = vec![];
+                for k in 1..=n.min(3) { perms(&ids, k, &mut vec![], &mut sels); }
+                for sel in sels {
+                    r.evaluations += 1;
+                    if mask != 0 { r.nontrivial += 1; }
+                    let roots: Vec<&N> = sel.iter().map(|i| &nodes[*i as usize]).collect();
+                    let got: Vec<u8> = match get_dependencies(&graph, &roots) { Ok(v) => v.iter().map(|x| x.id).collect(), Err(e) => { r.violation("get", "get_dependencies failed", format!("{nodes:?} roots={sel:?}"), "Ok".into(), e.to_string()); continue; } };
+                    // expected set: reachable from roots
+                    let mut reach = BTreeSet::new(); let mut stack: Vec<u8> = sel.clone();
+                    while let Some(x) = stack.pop() { if reach.insert(x) { for d in &nodes[x as usize].deps { stack.push(*d); } } }
+                    let set: BTreeSet<u8> = got.iter().cloned().collect();
+                    let mut ok = set == reach && got.len() == set.len();
+                    for (pos, x) in got.iter().enumerate() { for d in &nodes[*x as usize].deps { if !got[..pos].contains(d) { ok = false; } } }
+                    if !ok { r.violation("build_order", "order is not exactly roots + transitive dependencies, each once, dependencies first", format!("nodes={nodes:?} roots={sel:?}"), format!("set {reach:?}, deps first"), format!("{got:?}")); }
+                }
+            }
+        }
+        // dangling dependency
+        r.evaluations += 1; r.nontrivial += 1;
+        let mut nodes: Vec<N> = (0..n as u8).map(|i| N { id: i, deps: vec![] }).collect();
+        nodes[0].deps.push(99);
+        if libcnb_package_create(nodes.clone()).is_ok() { r.violation("missing_dependency", "dependency on an unknown id was not an error", format!("{nodes:?}"), "Err(MissingDependency)".into(), "Ok".into()); }
+    }
+    r.samples.push("nodes 0,1,2 with 2->1, 2->0, 1->0; roots [2] -> [0,1,2]".into());
+    r
+}
+fn libcnb_package_create(nodes: Vec<N>) -> Result<petgraph_graph<N>, String> {
+    dg::create_dependency_graph(nodes).map_err(|e| e.to_string())
+}
+#[allow(non_camel_case_types)]
+type petgraph_graph<T> = petgraph::Graph<T, ()>;
